@@ -267,6 +267,17 @@ KERNELS = [
          ext_fn={"self._find_fittest_operator": ("fittestFn", ["operators", "fitness"], ["Int", "Int"], "Int"),
                  "self._get_new_proba": ("newProbaFn", ["proba_dict", "operator", "threshold"], ["Int", "Int", "Int"], "Int"),
                  "self._choice_operators": ("choiceFn", ["proba_dict"], ["Int"], "Int")}),
+    # ---- PDPGA._adapt: when parent fitness values were remembered, the success flags are recomputed from them, each table is updated once
+    #      from the operators of its own kind with its own threshold and the memory is emptied; the next operators are ALWAYS drawn, each
+    #      from the (updated) table of its own kind (finding F8: they were never re-drawn)
+    dict(name="PDPGA_adapt", file="optimizers/_pdpga.py", cls="PDPGA", func="_adapt", params=[], ret="Self",
+         self_state=["_selection_proba", "_crossover_proba", "_mutation_proba", "_selection_operators", "_crossover_operators", "_mutation_operators",
+                     "_success_i", "_previous_fitness_i"],
+         self_items={"_thresholds": {"selection": "thr_selection", "crossover": "thr_crossover", "mutation": "thr_mutation"}},
+         opaque_exprs={"len(self._previous_fitness_i)": "n_remembered",
+                       "np.array(self._previous_fitness_i, dtype=np.float64) < self._fitness_i": "success_flags", "[]": "empty_list"},
+         ext_fn={"self._get_new_proba_pdp": ("newProbaFn", ["proba_dict", "operators", "threshold"], ["Int", "Int", "Int"], "Int"),
+                 "self._choice_operators": ("choiceFn", ["proba_dict"], ["Int"], "Int")}),
     # ---- PDPGA's offspring: as GA's, plus the remembered parent fitness (what `self._previous_fitness_i.append(...)` appends is returned
     #      as a second row)
     dict(name="PDPGA_get_new_individ_g", file="optimizers/_pdpga.py", cls="PDPGA", func="_get_new_individ_g",
